@@ -842,3 +842,98 @@ fn tx_buckets_lists_own_creation() {
         std::mem::forget(tx);
     }
 }
+
+// ---- C03-Ob3: closing the OLDEST of several readers removes exactly its entry and keeps the list sorted
+//      (younger readers' ids are appended by hand, as after later commits)
+// @ob props=C03 tier=quick cap=600 fns=Tx::new,TxInner::drop bound="committed id 7; the reader under test is the oldest; two younger readers with any ascending ids > 7" unwind=5
+#[kani::proof]
+#[kani::unwind(5)]
+#[kani::stub(crate::freelist::Freelist::release, crate::freelist::jv::release_recorder)]
+fn tx_drop_oldest_reader_keeps_order() {
+    let db = mk_db(&[], false);
+    {
+        let mut g = db.inner.open_ro_txs.lock().unwrap();
+        *g = Vec::with_capacity(4);
+    }
+    let res = db.tx(false);
+    assert!(res.is_ok());
+    if let Ok(tx) = res {
+        let y: [u64; 2] = kani::any();
+        kani::assume(C < y[0] && y[0] < y[1]);
+        {
+            let mut g = db.inner.open_ro_txs.lock().unwrap();
+            g.push(y[0]);
+            g.push(y[1]);
+        }
+        drop(tx);
+        let ro = db.inner.open_ro_txs.peek();
+        assert!(ro.len() == 2 && ro[0] == y[0] && ro[1] == y[1], "the remaining readers stay registered, oldest first");
+    }
+}
+
+// ---- C06-Ob1: bucket handles obtained from a READ-ONLY transaction's listing refuse to mutate
+// @ob props=C06 tier=quick cap=800 mem=8 fns=Tx::buckets,Buckets::next,Bucket::put,Bucket::create_bucket,Bucket::delete_bucket bound="concrete scenario (one execution): committed root leaf with bucket m; read-only transaction; first item of tx.buckets(); put / create_bucket / delete on it" unwind=5
+#[kani::proof]
+#[kani::unwind(5)]
+fn tx_ro_listing_handles_are_readonly() {
+    let db = mk_db(&[], false);
+    let old: [u8; 1] = [b'm'];
+    let bv = crate::cursor::jv::bucket_value(5, 0);
+    let d = jv_env::disk();
+    crate::cursor::jv::put_leaf_page_at(d.as_mut_ptr(), 3, 0, &[crate::cursor::jv::Ent { t: 1, k: &old, v: &bv }]);
+    crate::cursor::jv::put_leaf_page_at(d.as_mut_ptr(), 5, 0, &[]);
+    let res = db.tx(false);
+    assert!(res.is_ok());
+    if let Ok(tx) = res {
+        let mut it = tx.buckets();
+        let first = it.next();
+        assert!(first.is_some());
+        if let Some((_, b)) = &first {
+            let r = b.put([1u8], [2u8]);
+            assert!(matches!(r, Err(Error::ReadOnlyTx)), "a handle from a read-only transaction's listing cannot put");
+            std::mem::forget(r);
+            let r = b.create_bucket([3u8]);
+            assert!(matches!(r, Err(Error::ReadOnlyTx)));
+            std::mem::forget(r);
+            let r = b.delete([1u8]);
+            assert!(matches!(r, Err(Error::ReadOnlyTx)));
+            std::mem::forget(r);
+        }
+        std::mem::forget(first);
+        std::mem::forget(it);
+        std::mem::forget(tx);
+    }
+}
+
+// ---- C11 / C16: a commit that has to grow the file and then fails leaves the handle's shared map covering the
+//      (already extended) file, so the next transaction does not run past the end of its map
+// @ob props=C11,C16 tier=quick cap=800 mem=10 fns=Tx::commit,TxInner::write_data,DBInner::resize bound="concrete (one execution): the growth case of tx_commit_growth_small with the first page write failing" unwind=260
+#[kani::proof]
+#[kani::unwind(260)]
+fn tx_commit_growth_then_fault_map_covers_file() {
+    lay_meta(0, 0, C - 1, 3, 0, 12, 2, PS);
+    lay_meta(1, 1, C, 3, 0, 12, 2, PS);
+    lay_freelist(2, &[]);
+    lay_empty_leaf(3);
+    let db: &'static DB = Box::leak(Box::new(DB { inner: Arc::new(mk_dbinner(12, flags(false))) }));
+    let tx = match begin_and_dirty(db) {
+        Some(t) => t,
+        None => return,
+    };
+    let d = jv_env::disk();
+    // fallible calls of a growing commit: 0 metadata, 1 allocate (extension), 2 seek, 3 write of the first dirty page
+    d.fail_at = 3;
+    let r = tx.commit();
+    assert!(d.nfailed == 1);
+    assert!(matches!(r, Err(Error::Io(_))));
+    std::mem::forget(r);
+    assert!(d.nops >= 1 && d.ops[0].kind == jv_env::fs::OP_ALLOCATE, "the file was extended before the failing write");
+    let map_len = db.inner.data.peek().len();
+    assert!(map_len >= d.len, "the shared map covers the extended file after the failed commit");
+    assert!(!db.inner.file.is_held() && !db.inner.data.is_held() && !db.inner.mmap_lock.is_write_locked());
+    let m = db.inner.meta();
+    assert!(m.is_ok());
+    if let Ok(m) = m {
+        assert!(m.tx_id == C && m.num_pages == 12, "the pre-transaction state is still what the handle shows");
+    }
+}
